@@ -175,4 +175,25 @@ theorem c11_manifest_lookup_is_source_lookup (infos : List PackInfo) (packId : N
       Generated.manifestPackInfoById (infos.map (·.packId)) packId :=
   gen_manifestLookup infos packId
 
+/-! ### Tie to the source: the check covers the packs that are present -/
+
+/-- **`Container::check` as translated from `reader/jubako.rs` on every run**: it terminates for every
+    container and answers `true` exactly when the manifest verifies, the directory pack verifies and every
+    listed content pack *that can be located* verifies — a pack that cannot be located is skipped and the
+    packs listed after it are still checked; and the reader model's `containerCheck` (the function run
+    against the implementation on every altered container), whenever every part answers, is that function
+    of the parts' verdicts. -/
+theorem c11_container_check_is_source_check :
+    (∀ (m d : Bool) (packs : List (Option Bool)),
+      Generated.containerCheck m d packs = some (m && d && locatedAllOk packs)) ∧
+    (∀ (H : Bytes → Bytes) (fs : FS) (c : ContainerView) (m d : Bool) (vs : List (Option Bool)),
+      manifestCheck H c.manifest = .ok m → packCheck H id c.dirPack = .ok d →
+      (c.infos.filter (fun i => i.kind ≠ .directory)).map (packCheckStep H fs c) = vs.map Outcome.ok →
+      some (containerCheck H fs c) = Outcome.ok <$> Generated.containerCheck m d vs) :=
+  ⟨gen_containerCheck, containerCheck_is_source_check⟩
+
+/-- non-vacuity: an unlocated pack listed before a pack that does not verify — the verdict is `false` -/
+example : Generated.containerCheck true true [none, some false, some true] = some false ∧
+          Generated.containerCheck true true [none, some true] = some true := by decide
+
 end Jubako
